@@ -218,7 +218,16 @@ def _outputs_ok(option: str, ident: str, rc, stdout: str, stderr: str, sds_root:
 # ----------------------------------------------------------------------------- K3
 
 # one representative cell per step family of the documented protocol (+ none, + failing cleanup)
+_CAT = []
+
+
 def _fault_catalogue():
+    if not _CAT:
+        _CAT.append(_fault_catalogue_())
+    return _CAT[0]
+
+
+def _fault_catalogue_():
     from harness import C01
     n = (1, 1, 1, 1, 1)
     cells = C01.canonical(n)
